@@ -114,6 +114,31 @@ def cases(which):
         g2 = G.sum_over(nv, lambda i: vp(*(bj + (i,))) * b(i)) + G.sum_over(nh, lambda j: G.fn("softplus", lin(W, c, vp, bj, j)))
         return (g1 + sign * g2) / 2
 
+    def pi_parts(U, d, Up, v, vp, bi, bj, q):
+        x = (d(q) + G.sum_over(nv, lambda i: U(q, i) * v(*(bi + (i,)))) + d(q) + G.sum_over(nv, lambda i: U(q, i) * vp(*(bj + (i,))))) / 2
+        ph = (G.sum_over(nv, lambda i: Up(q, i) * v(*(bi + (i,)))) - G.sum_over(nv, lambda i: Up(q, i) * vp(*(bj + (i,))))) / 2
+        return x, ph
+
+    def pi_re(U, d, Up, v, vp, bi, bj):      # sum_a log |1 + exp(x_a + i phi_a)|
+        def f(q):
+            x, ph = pi_parts(U, d, Up, v, vp, bi, bj, q)
+            return G.fn("log", 1 + 2 * G.fn("exp", x) * G.fn("cos", ph) + G.fn("exp", 2 * x)) / 2
+        return G.sum_over(na, f)
+
+    def pi_im(U, d, Up, v, vp, bi, bj):      # sum_a arg (1 + exp(x_a + i phi_a))
+        def f(q):
+            x, ph = pi_parts(U, d, Up, v, vp, bi, bj, q)
+            return G.fn("atan2", G.fn("exp", x) * G.fn("sin", ph), 1 + G.fn("exp", x) * G.fn("cos", ph))
+        return G.sum_over(na, f)
+    def rho_el(p, v, vp, bi, bj):
+        am = G.fn("exp", gam(p["W"], p["b"], p["c"], v, vp, bi, bj, 1) + pi_re(p["U"], p["d"], p["Up"], v, vp, bi, bj))
+        ph = gam(p["Wp"], p["bp"], p["cp"], v, vp, bi, bj, -1) + pi_im(p["U"], p["d"], p["Up"], v, vp, bi, bj)
+        return (am * G.fn("cos", ph), am * G.fn("sin", ph))
+    def penergy_(p, v, bi):
+        return -(G.sum_over(nv, lambda i: v(*(bi + (i,))) * p["b"](i)) +
+                 G.sum_over(nh, lambda j: G.fn("softplus", lin(p["W"], p["c"], v, bi, j))) +
+                 G.sum_over(na, lambda a: G.fn("softplus", lin(p["U"], p["d"], v, bi, a))))
+
     if which in ("binary", "all"):
         # ---- BinaryRBM --------------------------------------------------------------------------------------------
         add("BinaryRBM.effective_energy[batch]", P_BIN + [("v", (B, nv), "bits")],
@@ -273,22 +298,6 @@ def cases(which):
             return _state(DensityMatrix, rbm_am=purification(W, U, b, c, d), rbm_ph=purification(Wp, Up, bp, cp, dp))
         ALL = P_PUR + P_PURPH
 
-        def pi_parts(U, d, Up, v, vp, bi, bj, q):
-            x = (d(q) + G.sum_over(nv, lambda i: U(q, i) * v(*(bi + (i,)))) + d(q) + G.sum_over(nv, lambda i: U(q, i) * vp(*(bj + (i,))))) / 2
-            ph = (G.sum_over(nv, lambda i: Up(q, i) * v(*(bi + (i,)))) - G.sum_over(nv, lambda i: Up(q, i) * vp(*(bj + (i,))))) / 2
-            return x, ph
-
-        def pi_re(U, d, Up, v, vp, bi, bj):      # sum_a log |1 + exp(x_a + i phi_a)|
-            def f(q):
-                x, ph = pi_parts(U, d, Up, v, vp, bi, bj, q)
-                return G.fn("log", 1 + 2 * G.fn("exp", x) * G.fn("cos", ph) + G.fn("exp", 2 * x)) / 2
-            return G.sum_over(na, f)
-
-        def pi_im(U, d, Up, v, vp, bi, bj):      # sum_a arg (1 + exp(x_a + i phi_a))
-            def f(q):
-                x, ph = pi_parts(U, d, Up, v, vp, bi, bj, q)
-                return G.fn("atan2", G.fn("exp", x) * G.fn("sin", ph), 1 + G.fn("exp", x) * G.fn("cos", ph))
-            return G.sum_over(na, f)
         add("DensityMatrix.pi[matrix]", ALL + [("v", (B, nv), "bits"), ("vp", (Bp, nv), "bits")],
             lambda v, vp, **p: dm(**p).pi(v, vp, expand=True),
             lambda v, vp, **p: cbuild((B, Bp), lambda s, t: (pi_re(p["U"], p["d"], p["Up"], v, vp, (s,), (t,)), pi_im(p["U"], p["d"], p["Up"], v, vp, (s,), (t,)))))
@@ -296,10 +305,6 @@ def cases(which):
             lambda v, vp, **p: dm(**p).pi(v, vp, expand=False),
             lambda v, vp, **p: cbuild((B,), lambda s: (pi_re(p["U"], p["d"], p["Up"], v, vp, (s,), (s,)), pi_im(p["U"], p["d"], p["Up"], v, vp, (s,), (s,)))))
 
-        def rho_el(p, v, vp, bi, bj):
-            am = G.fn("exp", gam(p["W"], p["b"], p["c"], v, vp, bi, bj, 1) + pi_re(p["U"], p["d"], p["Up"], v, vp, bi, bj))
-            ph = gam(p["Wp"], p["bp"], p["cp"], v, vp, bi, bj, -1) + pi_im(p["U"], p["d"], p["Up"], v, vp, bi, bj)
-            return (am * G.fn("cos", ph), am * G.fn("sin", ph))
         add("DensityMatrix.rho[matrix]", ALL + [("v", (B, nv), "bits"), ("vp", (Bp, nv), "bits")],
             lambda v, vp, **p: dm(**p).rho(v, vp, expand=True),
             lambda v, vp, **p: cbuild((B, Bp), lambda s, t: rho_el(p, v, vp, (s,), (t,))))
@@ -316,10 +321,6 @@ def cases(which):
             lambda v, Z, **p: dm(**p).probability(v, Z),
             lambda v, Z, **p: G.build((B,), lambda s: G.fn("exp", -penergy_(p, v, (s,))) * G.fn("inv", Z())))
 
-        def penergy_(p, v, bi):
-            return -(G.sum_over(nv, lambda i: v(*(bi + (i,))) * p["b"](i)) +
-                     G.sum_over(nh, lambda j: G.fn("softplus", lin(p["W"], p["c"], v, bi, j))) +
-                     G.sum_over(na, lambda a: G.fn("softplus", lin(p["U"], p["d"], v, bi, a))))
     if which in ("batchgrad", "all"):
         # ---- compute_batch_gradients without measurement bases (C06): positive phase minus negative phase, the Gibbs
         # chain replaced by its contract (it returns some batch vk of the negative batch's shape) -------------------------
@@ -413,6 +414,76 @@ def cases(which):
         add("SWAP.apply[positive wavefunction, region {0,2}] == psi(s1')psi(s2') / (psi(s1)psi(s2)) with the cyclic neighbour as second replica",
             P_BIN + [("samples", (B, nv), "bits")],
             lambda W, b, c, samples: SWAP(list(REGION)).apply(pwf3(W, b, c), samples), swap_spec)
+        out[-1].pre = pre_swap
+
+        def cwf3(W, b, c, Wp, bp, cp):
+            from qucumber.nn_states import ComplexWaveFunction
+            return _state(ComplexWaveFunction, rbm_am=binary(W, b, c), rbm_ph=binary(Wp, bp, cp))
+
+        def swap_spec_c(W, b, c, Wp, bp, cp, samples):
+            inA = lambda i: sum((G.delta(i, a) for a in REGION), G.ZERO)      # noqa: E731
+            prev = lambda t: ("sh", t, 1, B.name)                               # noqa: E731
+            s1 = lambda t, i: samples(t, i)                                     # noqa: E731
+            s2 = lambda t, i: samples(prev(t), i)                               # noqa: E731
+            s1s = lambda t, i: inA(i) * s2(t, i) + (1 - inA(i)) * s1(t, i)      # noqa: E731
+            s2s = lambda t, i: inA(i) * s1(t, i) + (1 - inA(i)) * s2(t, i)      # noqa: E731
+
+            def en_(Wm, bm, cm, row, t):
+                return -(G.sum_over(nv, lambda i: row(t, i) * bm(i)) +
+                         G.sum_over(nh, lambda j: G.fn("softplus", cm(j) + G.sum_over(nv, lambda i: Wm(j, i) * row(t, i)))))
+
+            def psi_(row, t):
+                a = G.fn("exp", -en_(W, b, c, row, t) / 2)
+                ph = -en_(Wp, bp, cp, row, t) / 2
+                return (a * G.fn("cos", ph), a * G.fn("sin", ph))
+
+            def cdiv(x, y):      # x * conj(y) / |y|^2, the way complex division is defined
+                den = G.fn("inv", y[0] * y[0] + y[1] * y[1])
+                return ((x[0] * y[0] + x[1] * y[1]) * den, (x[1] * y[0] - x[0] * y[1]) * den)
+
+            def val(t):
+                w1 = cdiv(psi_(s1s, t), psi_(s1, t))
+                w2 = cdiv(psi_(s2s, t), psi_(s2, t))
+                return w1[0] * w2[0] - w1[1] * w2[1]
+            return G.build((B,), val)
+        add("SWAP.apply[complex wavefunction, region {0,2}] == Re of psi(s1')/psi(s1) * psi(s2')/psi(s2) with the cyclic neighbour as second replica",
+            P_BIN + P_PH + [("samples", (B, nv), "bits")],
+            lambda W, b, c, Wp, bp, cp, samples: SWAP(list(REGION)).apply(cwf3(W, b, c, Wp, bp, cp), samples), swap_spec_c)
+        out[-1].pre = pre_swap
+
+        def dm3(**p):
+            from qucumber.nn_states import DensityMatrix
+            return _state(DensityMatrix, rbm_am=purification(p["W"], p["U"], p["b"], p["c"], p["d"]),
+                          rbm_ph=purification(p["Wp"], p["Up"], p["bp"], p["cp"], p["dp"]))
+
+        def swap_spec_dm(samples, **p):
+            inA = lambda i: sum((G.delta(i, a) for a in REGION), G.ZERO)      # noqa: E731
+            prev = lambda t: ("sh", t, 1, B.name)                               # noqa: E731
+
+            class Rows:      # a batch given element-wise, usable where the helpers expect a Val
+                def __init__(self, f):
+                    self.f = f
+
+                def __call__(self, t, i):
+                    return self.f(t, i)
+            s1 = Rows(lambda t, i: samples(t, i))
+            s2 = Rows(lambda t, i: samples(prev(t), i))
+            s1s = Rows(lambda t, i: inA(i) * s2(t, i) + (1 - inA(i)) * s1(t, i))
+            s2s = Rows(lambda t, i: inA(i) * s1(t, i) + (1 - inA(i)) * s2(t, i))
+
+            def weight(new, old, t):      # rho(new, old) / p(old), complex divided by the real probability written as (p, 0)
+                r = rho_el(p, new, old, (t,), (t,))
+                pr = G.fn("exp", -penergy_(p, old, (t,)))
+                den = G.fn("inv", pr * pr)
+                return (r[0] * pr * den, r[1] * pr * den)
+
+            def val(t):
+                w1, w2 = weight(s1s, s1, t), weight(s2s, s2, t)
+                return w1[0] * w2[0] - w1[1] * w2[1]
+            return G.build((B,), val)
+        add("SWAP.apply[density matrix, region {0,2}] == Re of rho(s1',s1)/p(s1) * rho(s2',s2)/p(s2) with the cyclic neighbour as second replica",
+            P_PUR + P_PURPH + [("samples", (B, nv), "bits")],
+            lambda samples, **p: SWAP(list(REGION)).apply(dm3(**p), samples), swap_spec_dm)
         out[-1].pre = pre_swap
 
     if which in ("statistics", "all"):
